@@ -32,21 +32,6 @@ end
 
 instance : BEq Value := ⟨Value.beq⟩
 
-mutual
-/-- every number replaced by its six-fractional-digit rounding (what the emitted literal denotes) -/
-def round6V : Value → Value
-  | .num d => .num (round6 d)
-  | .arr xs => .arr (round6Vs xs)
-  | .dict kvs => .dict (round6Ms kvs)
-  | v => v
-def round6Vs : List Value → List Value
-  | [] => []
-  | x :: xs => round6V x :: round6Vs xs
-def round6Ms : List (Str × Value) → List (Str × Value)
-  | [] => []
-  | (k, v) :: r => (k, round6V v) :: round6Ms r
-end
-
 /-- An observed object: identity, `_api` package?, active?, hash of its `FAConfig` serialisation. -/
 structure OObj where
   key : Key
@@ -93,7 +78,7 @@ structure CreateObs where
 /-- the object statement the supplied inputs stand for -/
 def expectedItem (i : CreateIn) (o : CreateObs) : Item :=
   { ty := i.ty,
-    name := (match o.parts with | none => i.name | some ps => (lookupStr kName ps).getD []),
+    name := shortName i.name o.parts,
     ioe := i.ioe, imports := i.tmpl,
     assigns := pathsOf (round6Ms (allAttrs i.attrs o.parts o.now)) }
 
